@@ -183,7 +183,7 @@ fn candidate(prop: &str, r: &mut StdRng, pool: &mut Pool) -> (usize, Vec<Value>)
             let n = pick_n(r, 0, 10);
             let t = naive::from_on(n, &pool.table(n, r));
             let mut s: Vec<u8> = naive::hex(&t);
-            let alphabet: &[u8] = b"0123456789abcdefABCDEFgG+-_ xX/:@`\t";
+            let alphabet: Vec<u8> = (0u8..128).chain(*b"0123456789abcdefABCDEF+-").collect();
             for _ in 0..r.gen_range(0..3) {
                 let pos = r.gen_range(0..s.len().max(1));
                 match r.gen_range(0..8) {
